@@ -4,8 +4,12 @@
   fuel-bounded fold, `floor((pending - 1) / 2) + 1` through `F64`) build `Model.merkleTree` of Model/Sponge.lean.
 
   Shape of the argument
-    * `mt_seq_generic`, `mt_avx_generic` (by unfolding only): both generated builders are ONE text `mtGenG LH H`,
-      instantiated with the translated linear hash `LH` and the translated capacity-sized hash `H` they call.
+    * `mt_seq_generic`, `mt_avx_generic`: both generated builders EQUAL the reference text `mtGenG LH H` (kept here),
+      instantiated with the translated linear hash `LH` and the translated capacity-sized hash `H` they call.  Proved
+      extensionally by `gen_equiv` (Lemmas/BridgeEquiv.lean), not by `rfl`: the number / names / captured variables of the
+      lifted loop bodies, hoisted invariants (`row_size`, `parentIndex`), `(i*c)*d` vs `i*(c*d)`, `x >> 1` vs `x / 2`,
+      copy-then-zero vs zero-then-copy of the node input, inverted `if`s do not matter; a change of an offset, a length, a
+      callee or the loop structure does.
     * `mtGenG_spec`: for every `LH` that returns the 4-word digest `leaf` of its input words and writes nothing else
       (`hLH`: what Lemmas/BridgeSponge.lean proves about the translated linear hashes) and every `H` whose first four output
       words are a function `nodeF` of its twelve input words and which writes nothing else (`hH`), for rows = 2^k (k ≤ 48),
@@ -15,6 +19,7 @@
 import GoldilocksVerif.Gen.MerkleGen
 import GoldilocksVerif.Lemmas.MerkleL
 import GoldilocksVerif.Lemmas.BridgeSponge
+set_option linter.unusedSimpArgs false
 
 namespace GoldilocksVerif
 open Model Gen.MerkleGen
@@ -71,26 +76,16 @@ def mtGenG (LH : Nat → Region → Region → BitVec 64 → Option Region) (H :
 theorem mt_seq_generic (fuel : Nat) (tree input : Region) (num_cols num_rows : BitVec 64) (nThreads : Int) (dim : BitVec 64) :
     Pos_merkletree_seq fuel tree input num_cols num_rows nThreads dim =
       mtGenG Gen.LinearHashGen.Pos_linear_hash_seq Gen.PosScalar.Pos_hash_seq fuel tree input num_cols num_rows nThreads dim := by
-  have e1 : Pos_merkletree_seq_loop1 = mtLeafG Gen.LinearHashGen.Pos_linear_hash_seq := by
-    funext fuel input nc dim i st; rfl
-  have e2 : Pos_merkletree_seq_loop2 = mtNodeG Gen.PosScalar.Pos_hash_seq := by
-    funext p ni i st; rfl
-  have e3 : Pos_merkletree_seq_loop3 = mtLevelG Gen.PosScalar.Pos_hash_seq := by
-    funext st; unfold Pos_merkletree_seq_loop3 mtLevelG; rw [e2]
-  unfold Pos_merkletree_seq mtGenG
-  rw [e1, e3]
+  delta mtGenG mtLevelG mtNodeG mtLeafG
+  delta_prefix "Gen.MerkleGen."
+  gen_equiv
 
 theorem mt_avx_generic (fuel : Nat) (tree input : Region) (num_cols num_rows : BitVec 64) (nThreads : Int) (dim : BitVec 64) :
     Pos_merkletree_avx fuel tree input num_cols num_rows nThreads dim =
       mtGenG Gen.LinearHashGen.Pos_linear_hash Gen.PosAvx2.Pos_hash fuel tree input num_cols num_rows nThreads dim := by
-  have e1 : Pos_merkletree_avx_loop1 = mtLeafG Gen.LinearHashGen.Pos_linear_hash := by
-    funext fuel input nc dim i st; rfl
-  have e2 : Pos_merkletree_avx_loop2 = mtNodeG Gen.PosAvx2.Pos_hash := by
-    funext p ni i st; rfl
-  have e3 : Pos_merkletree_avx_loop3 = mtLevelG Gen.PosAvx2.Pos_hash := by
-    funext st; unfold Pos_merkletree_avx_loop3 mtLevelG; rw [e2]
-  unfold Pos_merkletree_avx mtGenG
-  rw [e1, e3]
+  delta mtGenG mtLevelG mtNodeG mtLeafG
+  delta_prefix "Gen.MerkleGen."
+  gen_equiv
 
 /-! ### lists and regions -/
 
